@@ -1313,9 +1313,22 @@ func main() {
 				}
 				return "[" + strings.Join(parts, ", ") + "]"
 			}
-			src := "-- generated by xlate from codec/checksum.go; do not edit\nimport FinProto.LockProg\nnamespace FinProto.Gen\nopen FinProto.Reg\n\n" +
+			var rnames []string
+			for k := range fx.MemProgs {
+				rnames = append(rnames, k)
+			}
+			sort.Strings(rnames)
+			mem := "\n/-- the memory instructions of every reader primitive of codec/binary_codec.go, in source order: " + strings.Join(rnames, ", ") + " -/\ndef readerProgs : List FinProto.Alias.Prog := [\n"
+			for i, k := range rnames {
+				if i > 0 {
+					mem += ",\n"
+				}
+				mem += "  [" + strings.Join(fx.MemProgs[k], ", ") + "]"
+			}
+			mem += "]\n"
+			src := "-- generated by xlate from codec/checksum.go and codec/binary_codec.go; do not edit\nimport FinProto.LockProg\nimport FinProto.Alias\nnamespace FinProto.Gen\nopen FinProto.Reg\n\n" +
 				"/-- the bodies of Registry / Get / Remove / Clear as lock programs -/\ndef lockProgs : Progs :=\n  { reg := " + prog("Registry") + ",\n    get := " + prog("Get") +
-				",\n    remove := " + prog("Remove") + ",\n    clear := " + prog("Clear") + " }\n\nend FinProto.Gen\n"
+				",\n    remove := " + prog("Remove") + ",\n    clear := " + prog("Clear") + " }\n" + mem + "\nend FinProto.Gen\n"
 			os.WriteFile(*outLock, []byte(src), 0o644)
 		}
 	}
